@@ -753,10 +753,15 @@ func (p *CaseForm) typecheckForm(gammaNameTypesCtx NamesTypesCtx, providerShadow
 				return TypeErrorf("case labelled '%s' does not match the branches of type '%s'", curBranchForm.StringShort(), clientSelectLabelType.String())
 			}
 
+			// curBranchForm.payload_c cannot exist in gammaNameTypesCtx
+			if nameTypeExists(gammaNameTypesCtx, curBranchForm.payload_c.Ident) {
+				// Name is not fresh
+				return TypeErrorf("variable name '%s' is already defined. Use unique names in %s", curBranchForm.payload_c.String(), curBranchForm.StringShort())
+			}
+
 			// Copy gamma so that each branch has its own version
 			newGammaNameTypesCtx := copyContext(gammaNameTypesCtx)
 
-			// curBranchForm.payload_c cannot exist in gammaNameTypesCtx
 			newGammaNameTypesCtx[curBranchForm.payload_c.Ident] = NamesType{Type: expectedBranchType.SessionType}
 
 			// Set type
